@@ -157,3 +157,59 @@ package snapshot
 //@   ensures [C18.chunk.recv] err == nil ==> s.Stream.nrecv == old(s.Stream.nrecv) + 1 && n == blen(s.Stream.rdata[old(s.Stream.nrecv)]) && n <= len(p) && bytesOf(p[:n]) == s.Stream.rdata[old(s.Stream.nrecv)]
 //@   ensures [C18.chunk.fits] s.Stream.nrecv == old(s.Stream.nrecv) + 1 && 0 < blen(s.Stream.rdata[old(s.Stream.nrecv)]) && blen(s.Stream.rdata[old(s.Stream.nrecv)]) <= len(p) ==> err == nil      // a received chunk that fits - also exactly - is delivered, never refused
 //@   modifies s.Stream.nrecv, elems(p), allelems(uint8)
+
+// ---------------------------------------------------------------- the snapshot file object (C07, C18)
+
+// construction: compressed writer and reader sit on THE file; Sync flushes the compressed writer
+// BEFORE the file is fsynced (what was written is in the file when it is read back or shipped);
+// Close closes the writer, then the file
+//@ import snappy "github.com/klauspost/compress/snappy"
+//@ import os "os"
+//@ ghostfield any.over Iface
+//@ ghostfield any.flushed Bool
+//@ func snappy.NewBufferedWriter
+//@   assumed
+//@   ensures result != nil && fresh(result) && result.over == w
+//@   modifies nothing
+//@ func snappy.NewReader
+//@   assumed
+//@   ensures result != nil && fresh(result) && result.over == r
+//@   modifies nothing
+//@ func s2.(*Writer).Flush
+//@   assumed
+//@   params w
+//@   ensures result == nil ==> w.flushed
+//@   modifies w.flushed
+//@ func os.(*File).Sync
+//@   assumed
+//@   modifies nothing
+//@ func os.TempDir
+//@   assumed
+//@   modifies nothing
+//@ func os.CreateTemp
+//@   assumed
+//@   results f, err
+//@   ensures err == nil ==> f != nil && fresh(f)
+//@   modifies nothing
+//@ func os.(*File).Name
+//@   assumed
+//@   modifies nothing
+//@ func newFile
+//@   requires file != nil
+//@   ensures [C18.file.new+C07] result != nil && fresh(result) && result.File == file && result.path == path && result.w != nil && fresh(result.w) && typeIs(result.w.over, *os.File) && asType(result.w.over, *os.File) == file && result.r != nil && fresh(result.r) && typeIs(result.r.over, *os.File) && asType(result.r.over, *os.File) == file && len(result.lenBuff) == 8 && fresh(result.lenBuff) && allocated(result.lenBuff)
+//@   modifies nothing
+//@ func NewTemp
+//@   results f, err
+//@   ensures err == nil ==> f != nil && fresh(f) && f.File != nil && fresh(f.File) && f.w != nil && fresh(f.w) && f.r != nil && fresh(f.r) && len(f.lenBuff) == 8 && fresh(f.lenBuff) && allocated(f.lenBuff)
+//@   modifies nothing
+//@ func (*snapshotFile).Sync
+//@   requires s != nil && s.w != nil && s.File != nil
+//@   before os.(*File).Sync assert [C18.file.sync+C07] s.w.flushed
+//@   modifies s.w.flushed
+//@ func (*snapshotFile).Close
+//@   requires s != nil && s.w != nil && s.File != nil
+//@   modifies s.w.flushed, s.w.busy
+//@ func (*snapshotFile).Path
+//@   requires s != nil
+//@   ensures result == s.path
+//@   modifies nothing
